@@ -361,9 +361,16 @@ def r4(ctx, facts):
     r.instance("update-only-if-response-has-id", ok, "the cache is updated only where the response metadata carries an id", up[0].span if up else hb.span)
 
 
+def r6(ctx, facts):
+    """shared with C17 (stated there): every page of a paged execution is type-checked against the metadata that came with it, so a later page whose
+    metadata changed (METADATA_CHANGED) is refused instead of being decoded with the first page's row type"""
+    from .c17 import r7 as c17_r7
+    c17_r7(ctx, facts)
+
+
 def check(ctx):
     facts = inline_view(ctx.facts("default"))
-    for fn in (r1, r2_r3, r2_batch, r4, r5):
+    for fn in (r1, r2_r3, r2_batch, r4, r5, r6):
         try:
             fn(ctx, facts)
         except AnchorLost as ex:
